@@ -163,6 +163,71 @@ def fill_invariance(ck, sh, mm, gname, mname, tag=None):
     ck.bounds.setdefault('fill', []).append('%s moved by %s%s: %d integral atoms' % (gname, move, '' if tag is None else ' (object %d only)' % tag, len(T.atoms)))
 
 
+def mixed_tag(ck, sh, mm, gname):
+    """A part is put in place by a per-tag translation (key 1), then the WHOLE antenna is rotated (key 2) and translated
+    (key 3): the options (given in scrambled order) must build the model whose coordinates the reference computes by
+    applying the transformations strictly in key order, whatever their tags."""
+    M = sh.mininec
+    T = psistub.AtomTable()
+    pc.install(M, T)
+    t_tag, rot, t_all = (0.3, -0.2, 0.45), (30.0, 40.0, 50.0), (12.5, -7.0, 3.25)
+
+    def models(main):
+        objs, gnd = catalogue.spec(gname)
+        if gnd:
+            raise symx.HarnessError('mixed_tag: free-space members only')
+        tail = ['--excitation-pulse=1']
+        opts = ['--geo-translate=3,%r,%r,%r' % t_all, '--geo-translate=1,%r,%r,%r,2' % t_tag, '--geo-rotate=2,%r,%r,%r' % rot]
+        m_opt = run_main(main, ['-f', repr(F0)] + wire_args(objs) + opts + tail)
+        R = rot_matrix(rot)
+        objs2 = []
+        for k, o in enumerate(objs):
+            sh_ = np.asarray(t_tag) if k == 1 else np.zeros(3)
+            f = lambda p: tuple(R @ (np.asarray(p, dtype=float) + sh_) + np.asarray(t_all))
+            objs2.append(o[:2] + (f(o[2]), f(o[3])) + o[4:])
+        m_co = run_main(main, ['-f', repr(F0)] + wire_args(objs2) + tail)
+        return m_opt, m_co
+
+    def fn():
+        c = symx.ctx()
+        m_opt, m_co = models(M.main)
+        if len(m_opt.pulses) != len(m_co.pulses):
+            return dict(inputs={}, mismatch='options give %d pulses, coordinates %d' % (len(m_opt.pulses), len(m_co.pulses)))
+        pts = max(float(np.abs(np.asarray(a.point, dtype=float) - np.asarray(b.point, dtype=float)).max()) for a, b in zip(m_opt.pulses, m_co.pulses))
+        for m in (m_opt, m_co):
+            pc.fill(M, m)
+        for a in pc.additivity_axioms(T):
+            c.axiom(a)
+        for b in T.box(1.0):
+            c.assume(b)
+        return dict(inputs={}, m_opt=m_opt, m_co=m_co, pts=pts)
+
+    def goals(o):
+        if o.get('mismatch'):
+            return [('options and coordinates give the same pulses', z3.BoolVal(False))]
+        n = len(o['m_opt'].pulses)
+        return [('every pulse sits where the transformations applied in key order put it', z3.BoolVal(o['pts'] <= 1e-9)),
+                ('options == coordinates: same matrix', z3.And(*[pc.close_goal(o['m_opt'].Z[i][j], o['m_co'].Z[i][j]) for i in range(n) for j in range(n)]))]
+
+    def replay(conc, gn, out):
+        m_opt, m_co = models(mm.main)
+        res = []
+        for m in (m_opt, m_co):
+            m.sources = []
+            m.register_source(mm.Excitation(1 + 0.5j), 1)
+            m.compute()
+            res.append((m.sources[0].impedance, np.asarray(m.current)))
+        (z1, i1), (z2, i2) = res
+        cond = np.linalg.cond(np.asarray(m_co.Z, dtype=complex))
+        tol = 5e-4 * max(1.0, cond / 1e3)
+        if len(i1) != len(i2) or abs(z1 - z2) > tol * abs(z2) or np.abs(i1 - i2).max() > tol * np.abs(i2).max():
+            return ('C05:options-vs-coordinates:mixed-tags', '%s, object 2 translated by %s (key 1), whole antenna rotated %s (key 2) and translated %s (key 3): '
+                    'through the options Z = %r, with the motion written into the coordinates Z = %r' % (gname, t_tag, rot, t_all, z1, z2),
+                    dict(kind='mixed-tag', geometry=gname))
+        return None
+    prove_paths(ck, 'mixed-tag-%s' % gname, fn, goals, replay, max_paths=2, timeout_ms=30000, twin_timeout_ms=20000)
+
+
 def replay_sentence(mm, gname, move, tag=None):
     base, m_opt, m_co = three_models(mm.main, gname, move, tag)
     rot, tr, s = move
@@ -357,7 +422,7 @@ def main(args):
     if ck.tier == 'quick':
         parts = [('fill_invariance', ('G2', 'far-generic')), ('fill_invariance', ('G5', 'right-angles')), ('fill_invariance', ('G4', 'x-then-y')),
                  ('fill_invariance', ('G9', 'z-far')), ('fill_invariance', ('G8', 'z-right')), ('fill_invariance', ('G2', 'z-only', 2)),
-                 ('far_field', ('G2', 'z-only')), ('far_field', ('G9', 'z-far'))]
+                 ('far_field', ('G2', 'z-only')), ('far_field', ('G9', 'z-far')), ('mixed_tag', ('G2',)), ('mixed_tag', ('G5',))]
         parts += [('topology', (f, k)) for f in ('near-miss', 'fuzzy-join', 'just-apart', 'grounded') for k in ('scale',)]
         parts += [('topology', ('fuzzy-join', 'translate')), ('topology', ('grounded', 'translate')), ('topology', ('just-apart', 'rotate'))]
     else:
@@ -366,6 +431,7 @@ def main(args):
         parts += [('fill_invariance', ('G2', mv, 2)) for mv in MOVES_FREE] + [('fill_invariance', ('G5', 'z-only', 3))]
         parts += [('far_field', (g, 'z-only')) for g in ('G1', 'G2', 'G5')] + [('far_field', (g, mv)) for g in ('G8', 'G9') for mv in MOVES_GND]
         parts += [('topology', (f, k)) for f in FRAMES for k in ('scale', 'translate', 'rotate')]
+        parts += [('mixed_tag', (g,)) for g in ('G2', 'G3', 'G5', 'G6')]
     run_parallel(ck, 'checks.c05', parts)
     ck.assumptions += ['fill clause: catalogue members moved by the listed concrete transformations %s / %s (rotation degrees about x,y,z; '
                        'translation in metres at 10 m wavelength; scale); integrals unknown, V, Z_L, currents arbitrary' % (MOVES_FREE, MOVES_GND),
